@@ -26,3 +26,12 @@ base["not_applicable"] = [{"property_id": p, "reason": na.get(p, "check not buil
                           for p in props if p not in claimed]
 json.dump(base, open(os.path.join(V, "MANIFEST.json"), "w"), indent=1)
 print("MANIFEST.json: %d checks, %d not_applicable" % (len(checks), len(base["not_applicable"])))
+
+# known_findings.json is assembled from findings.d/<id>.json (one list of entries per property)
+allf = []
+for f in sorted(glob.glob(os.path.join(V, "findings.d", "C*.json"))):
+    allf += json.load(open(f))
+json.dump({"format": "entries: property, signature (clause id reported by the check), status known|fixed, commit (for fixed), what. "
+                     "Assembled by tools/mkmanifest.py from findings.d/; never written at check run time.",
+           "findings": allf}, open(os.path.join(V, "known_findings.json"), "w"), indent=1)
+print("known_findings.json: %d entries" % len(allf))
